@@ -70,6 +70,8 @@ def compare(ctx, f, t, y, o, tag):
         m1_ = float(mb.bins.MS.lower[j]); mt_ = float(f.compute_mto(t))
         Nj_ = float(mb.unpack_values(y)[0][j])
         near = abs(mt_ - m1_) <= 8e-16 * mt_ or abs(Nj_ - f.Nmin) <= 1e-15
+    # an age within rounding of a bin-edge lifetime: `t > tms_u[j]` may flip between the model's and numpy's evaluation of tms_u
+    near = near or any(abs(t - float(x)) <= 4e-16 * float(x) for x in np.atleast_1d(f.tms_u))
     if near:
         ctx.corr_case("derivsSev", True, detail, branch="threshold", indeterminate=True)
         return
